@@ -186,6 +186,9 @@ func verifNodes(tier int) []JsonNode {
 		jsonArray{jsonArray{jsonNumber(1), jsonNumber(2)}}, jsonArray{jsonArray{jsonNumber(2), jsonNumber(1)}},
 		jsonObject{"a": jsonObject{"b": jsonObject{"c": jsonObject{"x": jsonNumber(1), "y": jsonNumber(2)}}}},
 		jsonObject{"a": jsonObject{"b": jsonObject{"c": jsonObject{"y": jsonNumber(2), "z": jsonNumber(3)}}}},
+		// negative numbers (a '-' line that carries a minus sign), numbers that differ only in sign
+		jsonNumber(-5), jsonArray{jsonNumber(5), jsonNumber(-5)}, jsonArray{jsonNumber(5)}, jsonObject{"t": jsonNumber(-5)}, jsonObject{"t": jsonNumber(5)},
+		jsonArray{jsonNumber(5), jsonNumber(-5), jsonNumber(-5)}, jsonArray{jsonNumber(-1), jsonNumber(2)},
 		// a keyed member with two fields that change at once
 		jsonArray{jsonObject{"a": jsonNumber(1), "x": jsonNumber(1), "y": jsonNumber(1)}}, jsonArray{jsonObject{"a": jsonNumber(1), "x": jsonNumber(2), "y": jsonNumber(2)}},
 		// members of different JSON types that a set must tell apart
